@@ -33,7 +33,7 @@ BASE_EVENTS = ["ack", "nack", "cer", "cer-wrong-host", "cer-wrong-realm", "cer-m
                "cea", "cea-wrong-host", "cea-wrong-realm", "cea-missing-avp", "cea-extra-flag",
                "dwr", "dwr-wrong-host", "dwr-pair", "dwa", "dpr", "dpr-wrong-host", "dpr-busy", "dpa",
                "app-req", "app-ans", "misaddressed-req", "local-stop", "fin", "rst", "idle", "restart", "app-req-pair-dwr", "app-req-binary",
-               "dwr-retx", "cer-retx", "local-req", "app-ans-echo", "dpr-pair-app"]
+               "dwr-retx", "cer-retx", "local-req", "app-ans-echo", "dpr-pair-app", "dpa-then-dwr"]
 UNEXPECTED = {"cer-wrong-host", "cer-wrong-realm", "cer-missing-avp", "cer-extra-flag", "cea-wrong-host", "cea-wrong-realm",
               "cea-missing-avp", "cea-extra-flag", "dwr-wrong-host", "dpr-wrong-host", "misaddressed-req"}
 
@@ -47,7 +47,7 @@ GUIDE = {
                 "cea", "dwa", "dpa", "fin", "rst"],
     "Open": ["local-req", "local-req", "app-ans-echo", "app-ans-echo", "app-ans-echo", "dpr-pair-app", "dwr", "dwr", "dwr-retx", "dwr-retx", "cer-retx", "dwr-pair", "dwr-wrong-host", "dwa", "dpr", "dpr-wrong-host", "dpr-busy", "dpa", "app-req", "app-req", "app-req-binary", "app-ans",
              "app-req-pair-dwr", "misaddressed-req", "local-stop", "fin", "rst", "idle", "cer", "cer-wrong-host", "cea", "cea-wrong-host"],
-    "Closing": ["dpa", "dpa", "dpa", "fin", "rst", "dwr", "app-req", "dwa", "dpr", "dpr"],
+    "Closing": ["dpa", "dpa", "dpa", "dpa-then-dwr", "fin", "rst", "dwr", "app-req", "app-ans", "app-ans-echo", "dwa", "dpr", "dpr"],
     "Ended": ["restart"],
 }
 # Open with a request of the local application outstanding / just answered: the peer's answer (and its duplicate) is likely next
@@ -65,6 +65,14 @@ for _g in ("OpenP", "OpenA"):
     for (_s, _e), _n in list(GUIDE_NEXT.items()):
         if _s == "Open":
             GUIDE_NEXT[(_g, _e)] = _n
+# Closing with a request of the local application still unanswered: the peer's late answer is likely next
+GUIDE["ClosingP"] = ["app-ans-echo"] * 6 + GUIDE["Closing"]
+GUIDE_NEXT[("OpenP", "local-stop")] = "ClosingP"
+for (_s, _e), _n in list(GUIDE_NEXT.items()):
+    if _s == "Closing":
+        GUIDE_NEXT[("ClosingP", _e)] = _n
+GUIDE_NEXT[("Closing", "dpa-then-dwr")] = "Ended"
+GUIDE_NEXT[("ClosingP", "dpa-then-dwr")] = "Ended"
 GUIDE_NEXT[("Open", "local-req")] = "OpenP"
 GUIDE_NEXT[("OpenA", "local-req")] = "OpenP"
 GUIDE_NEXT[("OpenP", "app-ans-echo")] = "OpenA"
@@ -356,6 +364,26 @@ class Run:
                     self.req_log.append((282, hbh, e2e, self.generation, True))
                     self.peer_sent.append((282, hbh, e2e))
                 nxt = poss0 | {"Closed"}
+        elif e == "dpa-then-dwr":
+            # the peer answers the DPR and, before the connection is gone, one more message of it arrives (a watchdog request that
+            # was already on its way): the connection still ends
+            dpr = next((m for m in reversed(before) if m["cmd"] == 282 and m["flags"] & 0x80), None)
+            w.feed(peer_dpa(dpr["hbh"] if dpr else hbh, dpr["e2e"] if dpr else e2e))
+            self.settle(0.5)
+            if not self.terminal():
+                w.feed(peer_dwr(ev["hbh2"], ev["e2e2"]))
+            settle = 8.0
+            if poss0 == {"Closing"}:
+                det = dict(next="Closed", out={})
+                self.optional.append((280, ev["hbh2"], ev["e2e2"], self.generation))
+                self.req_log.append((280, ev["hbh2"], ev["e2e2"], self.generation, True))
+            elif poss0 == {"WaitICEA"}:
+                det = dict(next="Closed", out={})
+            else:
+                nxt = poss0 | {"Closed"}
+                if poss0 == {"Open"}:
+                    self.optional.append((280, ev["hbh2"], ev["e2e2"], self.generation))
+                    self.req_log.append((280, ev["hbh2"], ev["e2e2"], self.generation, True))
         elif e == "dpa":
             dpr = next((m for m in reversed(before) if m["cmd"] == 282 and m["flags"] & 0x80), None)
             w.feed(peer_dpa(dpr["hbh"] if dpr else hbh, dpr["e2e"] if dpr else e2e))
@@ -664,6 +692,31 @@ def _exhaustive(args):
     return col
 
 
+EXH_PREFIXES = [["local-req", "local-stop"], ["local-req", "app-ans-echo"], ["local-stop"], ["local-req", "dpr"], ["app-req", "local-stop"],
+                ["dwr", "local-stop"], ["local-req", "local-req"], ["local-req", "dwr"], ["idle"]]
+
+
+def _exhaustive_after_prefix(args):
+    """every event sequence of the given length over EXH_ALPHABET after the canonical opening followed by a multi-step prefix
+    (a request of the local application outstanding, a local stop under way, ...)"""
+    import itertools
+    role, prefix, depth = args
+    common.bootstrap()
+    col = Collector(PID, RULE)
+    opening = [_ev("ack"), _ev("cea")] if role == "client" else [_ev("cer", hbh=0x0A0B0C0D, e2e=0x01020304)]
+    n = nt = 0
+    for tail in itertools.product(EXH_ALPHABET + ["dpa-then-dwr"], repeat=depth):
+        evs = opening + [_ev(e, hbh=0x100 + i, e2e=0x200 + i, hbh2=0x300 + i, e2e2=0x400 + i) for i, e in enumerate(tuple(prefix) + tail)]
+        case = {"role": role, "napps": 1, "events": evs, "backlog": 0}
+        run, info = execute(case)
+        n += 1
+        nt += len(info["visited"]) >= 3 or any(e in UNEXPECTED for e in info["applied"])
+        for v in run.vs:
+            col.violation(case, v)
+    col.count_enum(n, nt, {"exhaustive-after-prefix": n})
+    return col
+
+
 def _ev(e, hbh=1, e2e=1, hbh2=2, e2e2=2):
     return {"e": e, "hbh": hbh, "e2e": e2e, "hbh2": hbh2, "e2e2": e2e2}
 
@@ -674,13 +727,17 @@ def main(ctx):
     jobs = [(role, first, depth) for role in ("client", "server") for first in EXH_ALPHABET]
     for part in common.pmap(_exhaustive, jobs):
         col.merge(part)
+    for part in common.pmap(_exhaustive_after_prefix, [(role, pre, 1 if ctx.quick else 2) for role in ("client", "server") for pre in EXH_PREFIXES]):
+        col.merge(part)
+    col.extra["exhaustive_after_prefix"] = (f"every sequence of {1 if ctx.quick else 2} event(s) over the same alphabet (+ dpa-then-dwr) after the opening and each of "
+                                            f"{len(EXH_PREFIXES)} multi-step prefixes {EXH_PREFIXES}, both roles")
     col.exhaustive = True
     col.extra["exhaustive_scope"] = (f"every sequence of {depth} events over a {len(EXH_ALPHABET)}-event alphabet after the canonical opening "
                                      f"(client: ack, CEA; server: CER), both roles: {2 * len(EXH_ALPHABET) ** depth} sequences; events that are "
                                      "not applicable in the reached state are skipped by the model")
     for path, rec in common.load_replays(PID):
         col.record(rec["case"], run_case(rec["case"]), nontrivial=True, classes=["replay"])
-    ctx.required_classes = ["exhaustive-sequences", "visits>=3-states", "non-conformant-event", "role=client", "role=server", "state=Closing", "state=Wait-I-CEA",
+    ctx.required_classes = ["exhaustive-sequences", "exhaustive-after-prefix", "visits>=3-states", "non-conformant-event", "role=client", "role=server", "state=Closing", "state=Wait-I-CEA",
                             "ev=restart", "ev=idle", "ev=local-stop", "ev=dpr", "ev=fin", "ev=nack", "ev=misaddressed-req", "ev=cer-wrong-host",
                             "ev=cea-wrong-realm"]
     ctx.assumptions = ["fair schedule with virtual-time settling after each event (0.6-8 virtual s); CER while the initiator waits (election "
